@@ -2919,4 +2919,791 @@ theorem matchLog_mem {μ : Type} (f : μ → Sig) : ∀ {log : List Sig} {plan :
         · obtain ⟨ph', hp', hx⟩ := ih hm m hmm
           exact hrest ph' hp' m hx
 
+/-! ## RRDP files -/
+
+theorem RrdpFs.get?_cons (e : Path × FileC) (fs : RrdpFs) (p : Path) :
+    RrdpFs.get? (e :: fs) p = if p = e.1 then some e.2 else RrdpFs.get? fs p := by
+  unfold RrdpFs.get?
+  rw [List.lookup_cons]
+  by_cases h : p = e.1
+  · simp [h]
+  · have : (p == e.1) = false := by simp [h]
+    simp [this, h]
+
+theorem RrdpFs.get?_filter (fs : RrdpFs) (keep : Path → Bool) (p : Path) :
+    RrdpFs.get? (fs.filter (fun e => keep e.1)) p = if keep p then RrdpFs.get? fs p else none := by
+  induction fs with
+  | nil => simp [RrdpFs.get?]
+  | cons e t ih =>
+    rw [List.filter_cons]
+    by_cases hk : keep e.1 = true
+    · simp only [hk, ↓reduceIte]
+      rw [RrdpFs.get?_cons, RrdpFs.get?_cons, ih]
+      by_cases hp : p = e.1
+      · simp [hp, hk]
+      · simp [hp]
+    · simp only [hk, Bool.false_eq_true, ↓reduceIte]
+      rw [ih, RrdpFs.get?_cons]
+      by_cases hp : p = e.1
+      · subst hp; simp [hk]
+      · simp [hp]
+
+theorem RrdpFs.get?_remove (fs : RrdpFs) (q p : Path) :
+    (fs.remove q).get? p = if p = q then none else fs.get? p := by
+  have := RrdpFs.get?_filter fs (fun x => x != q) p
+  unfold RrdpFs.remove
+  rw [this]
+  by_cases h : p = q <;> simp [h]
+
+theorem RrdpFs.get?_removeTree (fs : RrdpFs) (q p : Path) :
+    (fs.removeTree q).get? p = if q.isPrefixOf p then none else fs.get? p := by
+  have := RrdpFs.get?_filter fs (fun x => !(q.isPrefixOf x)) p
+  unfold RrdpFs.removeTree
+  rw [this]
+  by_cases h : q.isPrefixOf p = true <;> simp [h]
+
+theorem RrdpFs.get?_set (fs : RrdpFs) (q p : Path) (c : FileC) :
+    (fs.set q c).get? p = if p = q then some c else fs.get? p := by
+  unfold RrdpFs.set
+  rw [RrdpFs.get?_cons, RrdpFs.get?_remove]
+  by_cases h : p = q <;> simp [h]
+
+/-- What a removal mutation removes. -/
+def Mut.removes : Mut → Path → Bool
+  | .create _ _, _ => false
+  | .rename _ _, _ => false
+  | .removeTree q, p => q.isPrefixOf p
+  | .removeFile q, p => p == q
+  | .removeAny q, p => q.isPrefixOf p
+
+def Mut.isRemoval : Mut → Bool
+  | .removeTree _ => true
+  | .removeFile _ => true
+  | .removeAny _ => true
+  | _ => false
+
+theorem get?_apply_removal (fs : RrdpFs) (m : Mut) (hr : m.isRemoval = true) (p : Path)
+    (hp : m.removes p = false) : (fs.apply m).get? p = fs.get? p := by
+  cases m with
+  | create q c => simp [Mut.isRemoval] at hr
+  | rename a b => simp [Mut.isRemoval] at hr
+  | removeTree q =>
+    simp only [Mut.removes] at hp
+    simp only [RrdpFs.apply, RrdpFs.get?_removeTree, hp, Bool.false_eq_true, ↓reduceIte]
+  | removeFile q =>
+    simp only [Mut.removes, beq_eq_false_iff_ne, ne_eq] at hp
+    simp only [RrdpFs.apply, RrdpFs.get?_remove, hp, ↓reduceIte]
+  | removeAny q =>
+    simp only [Mut.removes] at hp
+    simp only [RrdpFs.apply, RrdpFs.get?_removeTree, hp, Bool.false_eq_true, ↓reduceIte]
+
+theorem get?_applyAll_removals (ms : List Mut) (p : Path)
+    (h : ∀ m ∈ ms, m.isRemoval = true ∧ m.removes p = false) :
+    ∀ (fs : RrdpFs), (fs.applyAll ms).get? p = fs.get? p := by
+  induction ms with
+  | nil => intro fs; rfl
+  | cons m t ih =>
+    intro fs
+    unfold RrdpFs.applyAll
+    rw [List.foldl_cons]
+    have := ih (fun x hx => h x (by simp [hx])) (fs.apply m)
+    unfold RrdpFs.applyAll at this
+    rw [this, get?_apply_removal fs m (h m (by simp)).1 p (h m (by simp)).2]
+
+/-- The files a notification names exist with the stated content. -/
+def RefsOk (fs : RrdpFs) (n : Notif) : Prop :=
+  fs.refOk n.snap = true ∧ ∀ d ∈ n.deltas, fs.refOk d.2 = true
+
+theorem consistent_iff (fs : RrdpFs) :
+    fs.consistent = true ↔
+      (fs.get? notifPath = none ∨ ∃ n, fs.get? notifPath = some (.notif n) ∧ RefsOk fs n) := by
+  unfold RrdpFs.consistent RefsOk
+  cases h : fs.get? notifPath with
+  | none => simp
+  | some c =>
+    cases c with
+    | data d => simp
+    | notif n => simp [List.all_eq_true]
+    | garbage w => simp
+
+theorem refOk_iff (fs : RrdpFs) (r : DataRef) :
+    fs.refOk r = true ↔ fs.get? r.path = some (.data r.data) := by
+  unfold RrdpFs.refOk; simp
+
+/-- `(path, content)` pairs that may be (re)written: whatever is at such a path already has
+that content, and a path determines the content. -/
+structure SafeSet (fs : RrdpFs) (S : List (Path × DataFile)) : Prop where
+  safe : ∀ e ∈ S, ∀ c, fs.get? e.1 = some c → c = .data e.2
+  func : ∀ e ∈ S, ∀ e' ∈ S, e.1 = e'.1 → e.2 = e'.2
+
+theorem writeOver_data (old : Option FileC) (x : DataFile) : writeOver old (.data x) = .data x := by
+  cases old with
+  | none => rfl
+  | some c => cases c <;> rfl
+
+theorem apply_create_data (fs : RrdpFs) (p : Path) (x : DataFile) :
+    fs.apply (.create p (.data x)) = fs.set p (.data x) := by
+  simp only [RrdpFs.apply, writeOver_data]
+
+/-- Writing data files of a safe set: nothing that was there changes, what is written is
+there. -/
+theorem data_creates (S : List (Path × DataFile)) : ∀ (dc : List (Path × DataFile)),
+    (∀ e ∈ dc, e ∈ S) → ∀ (fs : RrdpFs), SafeSet fs S →
+    let fs' := fs.applyAll (dc.map (fun e => Mut.create e.1 (.data e.2)))
+    SafeSet fs' S ∧
+    (∀ q c, fs.get? q = some c → fs'.get? q = some c) ∧
+    (∀ q, (∀ e ∈ S, q ≠ e.1) → fs'.get? q = fs.get? q) ∧
+    (∀ e ∈ dc, fs'.get? e.1 = some (.data e.2)) := by
+  intro dc
+  induction dc with
+  | nil => intro _ fs hs; exact ⟨hs, fun _ _ h => h, fun _ _ => rfl, fun _ h => nomatch h⟩
+  | cons a t ih =>
+    intro hsub fs hs
+    have ha : a ∈ S := hsub a (by simp)
+    -- one create
+    have hstep : fs.apply (.create a.1 (.data a.2)) = fs.set a.1 (.data a.2) := apply_create_data _ _ _
+    have hs1 : SafeSet (fs.set a.1 (.data a.2)) S := by
+      refine ⟨?_, hs.func⟩
+      intro e he c hc
+      rw [RrdpFs.get?_set] at hc
+      by_cases hp : e.1 = a.1
+      · simp only [hp, ↓reduceIte, Option.some.injEq] at hc
+        rw [← hc, hs.func e he a ha hp]
+      · simp only [hp, ↓reduceIte] at hc
+        exact hs.safe e he c hc
+    have hkeep : ∀ q c, fs.get? q = some c → (fs.set a.1 (.data a.2)).get? q = some c := by
+      intro q c hq
+      rw [RrdpFs.get?_set]
+      by_cases hp : q = a.1
+      · simp only [hp, ↓reduceIte]
+        rw [hp] at hq
+        rw [hs.safe a ha c hq]
+      · simp only [hp, ↓reduceIte]; exact hq
+    obtain ⟨h1, h2, h3, h4⟩ := ih (fun e he => hsub e (by simp [he])) _ hs1
+    simp only [List.map_cons, RrdpFs.applyAll, List.foldl_cons, hstep]
+    simp only [RrdpFs.applyAll] at h1 h2 h3 h4
+    refine ⟨h1, fun q c hq => h2 q c (hkeep q c hq), ?_, ?_⟩
+    · intro q hq
+      rw [h3 q hq, RrdpFs.get?_set]
+      simp [hq a ha]
+    · intro e he
+      rcases List.mem_cons.mp he with rfl | het
+      · apply h2
+        rw [RrdpFs.get?_set]; simp
+      · exact h4 e het
+
+/-! ### what `update_rrdp_files` writes and what the new notification names -/
+
+theorem contigFrom_serial_inj {n : Nat} {l : List DeltaRec} (h : contigFrom n l)
+    {d d' : DeltaRec} (hd : d ∈ l) (hd' : d' ∈ l) (hs : d.serial = d'.serial) : d = d' := by
+  obtain ⟨i, hi, rfl⟩ := List.getElem_of_mem hd
+  obtain ⟨j, hj, rfl⟩ := List.getElem_of_mem hd'
+  have h1 := (contigFrom_get n l h i hi).1
+  have h2 := (contigFrom_get n l h j hj).1
+  have : i = j := by omega
+  subst this
+  rfl
+
+theorem contigFrom_le {n : Nat} {l : List DeltaRec} (h : contigFrom n l) {d : DeltaRec}
+    (hd : d ∈ l) : d.serial ≤ n := by
+  obtain ⟨i, hi, rfl⟩ := List.getElem_of_mem hd
+  have := (contigFrom_get n l h i hi).1
+  omega
+
+theorem contigFrom_head {n : Nat} {l : List DeltaRec} (h : contigFrom n l) (hne : l ≠ []) :
+    (l.head?.map (·.serial)).getD 0 = n := by
+  cases l with
+  | nil => exact absurd rfl hne
+  | cons d ds => simp [h.1]
+
+theorem contigFrom_last_le {n : Nat} {l : List DeltaRec} (h : contigFrom n l) {d : DeltaRec}
+    (hd : d ∈ l) : (l.getLast?.map (·.serial)).getD 0 ≤ d.serial := by
+  cases hl : l.getLast? with
+  | none => simp
+  | some last =>
+    simp only [Option.map_some, Option.getD_some]
+    have hmem : last ∈ l := List.mem_of_getLast? hl
+    obtain ⟨i, hi, rfl⟩ := List.getElem_of_mem hd
+    obtain ⟨j, hj, hje⟩ := List.getElem_of_mem hmem
+    have h1 := (contigFrom_get n l h i hi).1
+    have h2 := (contigFrom_get n l h j hj).1
+    -- the last element has the largest index
+    have hjl : j = l.length - 1 := by
+      rw [List.getLast?_eq_getElem?] at hl
+      have hlt : l.length - 1 < l.length := by omega
+      rw [List.getElem?_eq_getElem hlt] at hl
+      have hser : l[l.length - 1].serial = l[j].serial := by
+        rw [hje]; exact congrArg DeltaRec.serial (Option.some.inj hl)
+      have h3 := (contigFrom_get n l h (l.length - 1) hlt).1
+      omega
+    rw [← hje]
+    omega
+
+/-- The data files the writer may (re)write. -/
+def safeSetOf (r : Rrdp) : List (Path × DataFile) :=
+  (snapshotPath r, snapshotFile r) ::
+    r.deltas.map (fun d => (deltaPath r.session d, deltaFile r.session d))
+
+/-- Shape of the file names of a notification: `<session>/<serial>/<random>/…`. -/
+def RefShape (n : Notif) : Prop :=
+  (∃ rnd, n.snap.path = [.sess n.session, .num n.serial, .rnd rnd, .name "snapshot.xml"]) ∧
+  ∀ d ∈ n.deltas, ∃ rnd, d.2.path = [.sess n.session, .num d.1, .rnd rnd, .name "delta.xml"]
+
+/-- What `update_rrdp_files` needs of the files it finds. -/
+structure RrdpPre (r : Rrdp) (fs : RrdpFs) : Prop where
+  /-- no left-over `new-notification.xml` (otherwise F-C11-3) -/
+  stale : fs.get? newNotifPath = none
+  shape : ∀ n, fs.notification = some n → RefShape n
+  /-- the files are not from the future -/
+  past : ∀ n, fs.notification = some n → n.session = r.session → ∀ d ∈ n.deltas, d.1 ≤ r.serial
+  contig : Contig r
+  /-- a file that already sits at the path of a delta or of the snapshot is that file -/
+  safe : ∀ e ∈ safeSetOf r, ∀ c, fs.get? e.1 = some c → c = .data e.2
+  /-- `notification.xml` is a file -/
+  flat : ∀ e ∈ fs, e.1.head? = some (.name "notification.xml") → e.1 = notifPath
+
+theorem safeSet_of_pre {r : Rrdp} {fs : RrdpFs} (h : RrdpPre r fs) : SafeSet fs (safeSetOf r) := by
+  refine ⟨h.safe, ?_⟩
+  intro e he e' he' hp
+  unfold safeSetOf at he he'
+  rcases List.mem_cons.mp he with rfl | he <;> rcases List.mem_cons.mp he' with rfl | he'
+  · rfl
+  · obtain ⟨d, _, rfl⟩ := List.mem_map.mp he'
+    simp [snapshotPath, deltaPath] at hp
+  · obtain ⟨d, _, rfl⟩ := List.mem_map.mp he
+    simp [snapshotPath, deltaPath] at hp
+  · obtain ⟨d, hd, rfl⟩ := List.mem_map.mp he
+    obtain ⟨d', hd', rfl⟩ := List.mem_map.mp he'
+    simp only [deltaPath, List.cons.injEq, Seg.num.injEq, Seg.rnd.injEq, and_true, true_and] at hp
+    have := contigFrom_serial_inj h.contig.2 hd hd' hp.1
+    rw [this]
+
+theorem mem_insertAsc {x y : Nat × DataRef} {l : List (Nat × DataRef)} :
+    y ∈ insertAsc x l ↔ y = x ∨ y ∈ l := by
+  induction l with
+  | nil => simp [insertAsc]
+  | cons a t ih =>
+    simp only [insertAsc]
+    split
+    · simp
+    · simp only [List.mem_cons, ih]
+      constructor
+      · rintro (h | h | h)
+        · exact Or.inr (Or.inl h)
+        · exact Or.inl h
+        · exact Or.inr (Or.inr h)
+      · rintro (h | h | h)
+        · exact Or.inr (Or.inl h)
+        · exact Or.inl h
+        · exact Or.inr (Or.inr h)
+
+theorem mem_sortAsc {y : Nat × DataRef} {l : List (Nat × DataRef)} : y ∈ sortAsc l ↔ y ∈ l := by
+  induction l with
+  | nil => simp [sortAsc]
+  | cons a t ih =>
+    simp only [sortAsc, List.foldr_cons] at ih ⊢
+    rw [mem_insertAsc, ih]
+    simp
+
+/-- What is re-used comes from the old notification of the same session, and is not older than
+the oldest retained delta. -/
+theorem mem_reusable {r : Rrdp} {old : Option Notif} {x : Nat × DataRef}
+    (hx : x ∈ reusable r old) :
+    ∃ n, old = some n ∧ n.session = r.session ∧ x ∈ n.deltas ∧ r.deltas ≠ [] ∧
+      (r.deltas.getLast?.map (·.serial)).getD 0 ≤ x.1 := by
+  unfold reusable at hx
+  cases old with
+  | none => cases hx
+  | some n =>
+    by_cases hs : (n.session != r.session) = true
+    · simp only [hs, ↓reduceIte] at hx; cases hx
+    · simp only [hs, Bool.false_eq_true, ↓reduceIte] at hx
+      by_cases hg : (!noGaps (sortAsc n.deltas)) = true
+      · simp only [hg, ↓reduceIte] at hx; cases hx
+      · simp only [hg, Bool.false_eq_true, ↓reduceIte] at hx
+        cases hl : r.deltas.getLast? with
+        | none => simp only [hl] at hx; cases hx
+        | some last =>
+          simp only [hl] at hx
+          obtain ⟨h1, h2⟩ := List.mem_filter.mp hx
+          refine ⟨n, rfl, by simpa using hs, mem_sortAsc.mp h1, ?_, ?_⟩
+          · intro he; rw [he] at hl; cases hl
+          · simpa using h2
+
+theorem mem_deltasToWrite {r : Rrdp} {reused : List (Nat × DataRef)} {d : DeltaRec}
+    (h : d ∈ deltasToWrite r reused) : d ∈ r.deltas := by
+  unfold deltasToWrite at h
+  cases hl : reused.getLast? with
+  | none => simp only [hl] at h; exact h
+  | some last => simp only [hl] at h; exact (List.mem_filter.mp h).1
+
+/-- The data files written: the missing deltas, then the snapshot. -/
+def dataWrites (r : Rrdp) (old : Option Notif) : List (Path × DataFile) :=
+  (deltasToWrite r (reusable r old)).map (fun d => (deltaPath r.session d, deltaFile r.session d))
+    ++ [(snapshotPath r, snapshotFile r)]
+
+theorem dataWrites_sub (r : Rrdp) (old : Option Notif) :
+    ∀ e ∈ dataWrites r old, e ∈ safeSetOf r := by
+  intro e he
+  unfold dataWrites at he
+  unfold safeSetOf
+  rcases List.mem_append.mp he with he | he
+  · obtain ⟨d, hd, rfl⟩ := List.mem_map.mp he
+    exact List.mem_cons_of_mem _ (List.mem_map.mpr ⟨d, mem_deltasToWrite hd, rfl⟩)
+  · simp only [List.mem_singleton] at he
+    subst he; simp
+
+theorem rrdpPlanFrom_eq (r : Rrdp) (fs : RrdpFs) (old : Option Notif) :
+    rrdpPlan.rrdpPlanFrom r fs old =
+      let writes := (dataWrites r old).map (fun e => Mut.create e.1 (.data e.2)) ++
+        [.create newNotifPath (.notif (newNotification r old)), .rename newNotifPath notifPath]
+      [(true, writes), (false, cleanupSessions r (fs.applyAll writes)),
+       (false, cleanupSerials r (fs.applyAll writes))] := by
+  unfold rrdpPlan.rrdpPlanFrom dataWrites
+  simp only [List.map_append, List.map_map, List.map_cons, List.map_nil, List.append_assoc,
+    List.cons_append, List.nil_append, Function.comp_def]
+
+/-! ### what the clean-up removes -/
+
+theorem mem_cleanupSessions {r : Rrdp} {fs : RrdpFs} {c : Mut} (h : c ∈ cleanupSessions r fs) :
+    ∃ s, c = .removeTree [s] ∧ s ≠ .sess r.session ∧
+      ∃ e ∈ fs, ∃ x rest, e.1 = s :: x :: rest := by
+  unfold cleanupSessions at h
+  obtain ⟨⟨s, isDir⟩, hmem, hf⟩ := List.mem_filterMap.mp h
+  simp only at hf
+  by_cases hs : (s == Seg.sess r.session) = true
+  · simp [hs] at hf
+  · simp only [hs, Bool.false_eq_true, ↓reduceIte] at hf
+    cases isDir with
+    | false => simp at hf
+    | true =>
+      simp only [↓reduceIte, Option.some.injEq] at hf
+      refine ⟨s, hf.symm, by simpa using hs, ?_⟩
+      unfold RrdpFs.children at hmem
+      rw [List.mem_eraseDups] at hmem
+      obtain ⟨e, he, hfe⟩ := List.mem_filterMap.mp hmem
+      simp only [List.isPrefixOf_nil_left, ↓reduceIte, List.length_nil, List.drop_zero] at hfe
+      cases hp : e.1 with
+      | nil => rw [hp] at hfe; cases hfe
+      | cons a t =>
+        rw [hp] at hfe
+        cases t with
+        | nil => simp at hfe
+        | cons x rest =>
+          simp only [Option.some.injEq, Prod.mk.injEq, and_true] at hfe
+          exact ⟨e, he, x, rest, by rw [hp, hfe]⟩
+
+theorem snapshotIn_shape {fs : RrdpFs} {session serial : Nat} {p : Path}
+    (h : fs.snapshotIn session serial = some p) :
+    ∃ x, p = [.sess session, .num serial, x, .name "snapshot.xml"] := by
+  unfold RrdpFs.snapshotIn at h
+  rw [Option.map_eq_some_iff] at h
+  obtain ⟨e, hf, rfl⟩ := h
+  have hp := List.find?_some hf
+  split at hp
+  · rename_i s n x f heq
+    simp only [Bool.and_eq_true, beq_iff_eq] at hp
+    obtain ⟨⟨rfl, rfl⟩, rfl⟩ := hp
+    exact ⟨x, heq⟩
+  · cases hp
+
+theorem mem_cleanupSerials {r : Rrdp} {fs : RrdpFs} {c : Mut} (h : c ∈ cleanupSerials r fs) :
+    (∃ n, n ≠ r.serial ∧
+        (n < (r.deltas.getLast?.map (·.serial)).getD 0 ∨ n > (r.deltas.head?.map (·.serial)).getD 0) ∧
+        (c = .removeTree [.sess r.session, .num n] ∨ c = .removeFile [.sess r.session, .num n])) ∨
+    (∃ n x, n ≠ r.serial ∧ c = .removeFile [.sess r.session, .num n, x, .name "snapshot.xml"]) ∨
+    (∃ s, (∀ n, s ≠ .num n) ∧ c = .removeAny [.sess r.session, s]) := by
+  unfold cleanupSerials at h
+  obtain ⟨⟨s, isDir⟩, _, hf⟩ := List.mem_filterMap.mp h
+  simp only at hf
+  cases s with
+  | num n =>
+    simp only at hf
+    by_cases hn : (n == r.serial) = true
+    · simp [hn] at hf
+    · simp only [hn, Bool.false_eq_true, ↓reduceIte] at hf
+      have hne : n ≠ r.serial := by simpa using hn
+      split at hf
+      · rename_i hrange
+        simp only [Bool.or_eq_true, decide_eq_true_eq] at hrange
+        simp only [Option.some.injEq] at hf
+        refine Or.inl ⟨n, hne, hrange, ?_⟩
+        cases isDir <;> simp at hf <;> simp [← hf]
+      · cases hsnap : fs.snapshotIn r.session n with
+        | none => rw [hsnap] at hf; cases hf
+        | some p =>
+          rw [hsnap] at hf
+          simp only [Option.map_some, Option.some.injEq] at hf
+          obtain ⟨x, rfl⟩ := snapshotIn_shape hsnap
+          exact Or.inr (Or.inl ⟨n, x, hne, hf.symm⟩)
+  | sess k =>
+    simp only [Option.some.injEq] at hf
+    exact Or.inr (Or.inr ⟨.sess k, (fun n hc => nomatch hc), hf.symm⟩)
+  | rnd k =>
+    simp only [Option.some.injEq] at hf
+    exact Or.inr (Or.inr ⟨.rnd k, (fun n hc => nomatch hc), hf.symm⟩)
+  | name k =>
+    simp only [Option.some.injEq] at hf
+    exact Or.inr (Or.inr ⟨.name k, (fun n hc => nomatch hc), hf.symm⟩)
+
+/-! ### the notification stays consistent at every cut -/
+
+theorem mem_newNotification_deltas {r : Rrdp} {old : Option Notif} {x : Nat × DataRef}
+    (hx : x ∈ (newNotification r old).deltas) :
+    (∃ d ∈ deltasToWrite r (reusable r old),
+        x = (d.serial, ⟨deltaPath r.session d, deltaFile r.session d⟩)) ∨
+    x ∈ reusable r old := by
+  unfold newNotification at hx
+  simp only [List.mem_append, List.mem_map, List.mem_reverse] at hx
+  rcases hx with ⟨d, hd, rfl⟩ | hx
+  · exact Or.inl ⟨d, hd, rfl⟩
+  · exact Or.inr hx
+
+/-- Names and serial range of the deltas the new notification lists. -/
+theorem newNotification_delta_shape {r : Rrdp} {fs : RrdpFs} (hpre : RrdpPre r fs)
+    {x : Nat × DataRef} (hx : x ∈ (newNotification r fs.notification).deltas) :
+    (∃ rnd, x.2.path = [.sess r.session, .num x.1, .rnd rnd, .name "delta.xml"]) ∧
+    (r.deltas.getLast?.map (·.serial)).getD 0 ≤ x.1 ∧
+    x.1 ≤ (r.deltas.head?.map (·.serial)).getD 0 := by
+  rcases mem_newNotification_deltas hx with ⟨d, hd, rfl⟩ | hre
+  · have hmem := mem_deltasToWrite hd
+    refine ⟨⟨d.rnd, rfl⟩, contigFrom_last_le hpre.contig.2 hmem, ?_⟩
+    rw [contigFrom_head hpre.contig.2 (List.ne_nil_of_mem hmem)]
+    exact contigFrom_le hpre.contig.2 hmem
+  · obtain ⟨n, hn, hsess, hmem, hne, hlow⟩ := mem_reusable hre
+    obtain ⟨rnd, hp⟩ := (hpre.shape n hn).2 x hmem
+    refine ⟨⟨rnd, by rw [hp, hsess]⟩, hlow, ?_⟩
+    rw [contigFrom_head hpre.contig.2 hne]
+    exact hpre.past n hn hsess x hmem
+
+/-- Targets of the writing mutations. -/
+def Mut.target : Mut → Option Path
+  | .create p _ => some p
+  | .rename _ b => some b
+  | _ => none
+
+theorem mem_set_path {fs : RrdpFs} {q : Path} {c : FileC} {e : Path × FileC}
+    (h : e ∈ fs.set q c) : e.1 = q ∨ e ∈ fs := by
+  unfold RrdpFs.set at h
+  rcases List.mem_cons.mp h with rfl | h
+  · exact Or.inl rfl
+  · exact Or.inr (List.mem_filter.mp h).1
+
+theorem mem_apply_path {fs : RrdpFs} {m : Mut} {e : Path × FileC} (h : e ∈ fs.apply m) :
+    (∃ e' ∈ fs, e'.1 = e.1) ∨ m.target = some e.1 := by
+  cases m with
+  | create p c =>
+    rcases mem_set_path h with h | h
+    · exact Or.inr (by simp [Mut.target, h])
+    · exact Or.inl ⟨e, h, rfl⟩
+  | rename a b =>
+    simp only [RrdpFs.apply] at h
+    cases hg : fs.get? a with
+    | none => rw [hg] at h; exact Or.inl ⟨e, h, rfl⟩
+    | some c =>
+      rw [hg] at h
+      rcases mem_set_path h with h | h
+      · exact Or.inr (by simp [Mut.target, h])
+      · exact Or.inl ⟨e, (List.mem_filter.mp h).1, rfl⟩
+  | removeTree p => exact Or.inl ⟨e, (List.mem_filter.mp h).1, rfl⟩
+  | removeFile p => exact Or.inl ⟨e, (List.mem_filter.mp h).1, rfl⟩
+  | removeAny p => exact Or.inl ⟨e, (List.mem_filter.mp h).1, rfl⟩
+
+theorem mem_applyAll_path (ms : List Mut) : ∀ {fs : RrdpFs} {e : Path × FileC},
+    e ∈ fs.applyAll ms → (∃ e' ∈ fs, e'.1 = e.1) ∨ ∃ m ∈ ms, m.target = some e.1 := by
+  induction ms with
+  | nil => intro fs e h; exact Or.inl ⟨e, h, rfl⟩
+  | cons m t ih =>
+    intro fs e h
+    unfold RrdpFs.applyAll at h
+    rw [List.foldl_cons] at h
+    rcases ih (fs := fs.apply m) h with ⟨e', he', hp⟩ | ⟨m', hm', ht⟩
+    · rcases mem_apply_path he' with ⟨e'', he'', hp'⟩ | ht
+      · exact Or.inl ⟨e'', he'', hp'.trans hp⟩
+      · exact Or.inr ⟨m, by simp, by rw [ht, hp]⟩
+    · exact Or.inr ⟨m', by simp [hm'], ht⟩
+
+theorem applyAll_append_rrdp (fs : RrdpFs) (a b : List Mut) :
+    fs.applyAll (a ++ b) = (fs.applyAll a).applyAll b := by
+  unfold RrdpFs.applyAll; rw [List.foldl_append]
+
+theorem take_append_two {α} (a : List α) (x y : α) (n : Nat) :
+    (∃ k, (a ++ [x, y]).take n = a.take k) ∨ (a ++ [x, y]).take n = a ++ [x] ∨
+      (a ++ [x, y]).take n = a ++ [x, y] := by
+  by_cases h1 : n ≤ a.length
+  · exact Or.inl ⟨n, List.take_append_of_le_length h1⟩
+  · by_cases h2 : n = a.length + 1
+    · right; left
+      rw [h2, List.take_append, List.take_of_length_le (Nat.le_succ _)]
+      simp
+    · right; right
+      apply List.take_of_length_le
+      simp only [List.length_append, List.length_cons, List.length_nil]
+      omega
+
+theorem safeSet_path_len {r : Rrdp} {e : Path × DataFile} (he : e ∈ safeSetOf r) :
+    e.1.length = 4 := by
+  unfold safeSetOf at he
+  rcases List.mem_cons.mp he with rfl | he
+  · rfl
+  · obtain ⟨d, _, rfl⟩ := List.mem_map.mp he
+    rfl
+
+theorem notification_of_get? {fs : RrdpFs} {n : Notif} (h : fs.notification = some n) :
+    fs.get? notifPath = some (.notif n) := by
+  unfold RrdpFs.notification at h
+  cases hg : fs.get? notifPath with
+  | none => rw [hg] at h; cases h
+  | some c =>
+    rw [hg] at h
+    cases c with
+    | notif m => simp only [Option.some.injEq] at h; rw [h]
+    | data d => cases h
+    | garbage w => cases h
+
+/-- State after the data files have been written (any number of them). -/
+theorem after_data_writes {r : Rrdp} {fs : RrdpFs} (hpre : RrdpPre r fs)
+    (hc : fs.consistent = true) (dw : List (Path × DataFile)) (hsub : ∀ e ∈ dw, e ∈ safeSetOf r) :
+    let fs1 := fs.applyAll (dw.map (fun e => Mut.create e.1 (.data e.2)))
+    fs1.consistent = true ∧ fs1.get? newNotifPath = none ∧
+    fs1.get? notifPath = fs.get? notifPath ∧
+    (∀ q c, fs.get? q = some c → fs1.get? q = some c) ∧
+    (∀ e ∈ dw, fs1.get? e.1 = some (.data e.2)) := by
+  obtain ⟨_, hkeep, hoth, hwr⟩ := data_creates (safeSetOf r) dw hsub fs (safeSet_of_pre hpre)
+  have hnn : ∀ (q : Path), q.length = 1 → ∀ e ∈ safeSetOf r, q ≠ e.1 := by
+    intro q hq e he heq
+    have := safeSet_path_len he
+    rw [← heq] at this
+    omega
+  have h1 := hoth notifPath (hnn _ rfl)
+  have h2 := hoth newNotifPath (hnn _ rfl)
+  refine ⟨?_, by rw [h2]; exact hpre.stale, h1, hkeep, hwr⟩
+  rw [consistent_iff] at hc ⊢
+  rcases hc with hc | ⟨n, hn, hs, hd⟩
+  · exact Or.inl (by rw [h1]; exact hc)
+  · refine Or.inr ⟨n, by rw [h1]; exact hn, ?_, ?_⟩
+    · rw [refOk_iff] at hs ⊢; exact hkeep _ _ hs
+    · intro d hdm
+      have := hd d hdm
+      rw [refOk_iff] at this ⊢
+      exact hkeep _ _ this
+
+/-- All files the new notification names are there once the data files are written. -/
+theorem new_refs_present {r : Rrdp} {fs : RrdpFs} (hpre : RrdpPre r fs)
+    (hc : fs.consistent = true) :
+    let fs1 := fs.applyAll ((dataWrites r fs.notification).map (fun e => Mut.create e.1 (.data e.2)))
+    fs1.get? (snapshotPath r) = some (.data (snapshotFile r)) ∧
+    ∀ x ∈ (newNotification r fs.notification).deltas, fs1.get? x.2.path = some (.data x.2.data) := by
+  obtain ⟨_, _, _, hkeep, hwr⟩ :=
+    after_data_writes hpre hc (dataWrites r fs.notification) (dataWrites_sub r _)
+  refine ⟨?_, ?_⟩
+  · exact hwr (snapshotPath r, snapshotFile r) (by simp [dataWrites])
+  · intro x hx
+    rcases mem_newNotification_deltas hx with ⟨d, hd, rfl⟩ | hre
+    · exact hwr (deltaPath r.session d, deltaFile r.session d)
+        (by unfold dataWrites; exact List.mem_append_left _ (List.mem_map.mpr ⟨d, hd, rfl⟩))
+    · obtain ⟨n, hn, _, hmem, _, _⟩ := mem_reusable hre
+      have hg := notification_of_get? hn
+      rw [consistent_iff] at hc
+      rcases hc with hc | ⟨n', hn', _, hd⟩
+      · rw [hg] at hc; cases hc
+      · rw [hg] at hn'
+        have : n = n' := by injection hn' with h; injection h
+        subst this
+        have := hd x hmem
+        rw [refOk_iff] at this
+        exact hkeep _ _ this
+
+theorem rrdp_cut_consistent {r : Rrdp} {fs : RrdpFs} (hpre : RrdpPre r fs)
+    (hc : fs.consistent = true) {log : List Sig} {ms : List Mut} {rest : Plan}
+    (hm : matchLog Mut.sig (rrdpPlan r fs) log = some (ms, rest)) :
+    (fs.applyAll ms).consistent = true := by
+  have hplan : rrdpPlan r fs = [] ∨
+      rrdpPlan r fs = rrdpPlan.rrdpPlanFrom r fs fs.notification := by
+    unfold rrdpPlan
+    cases fs.notification with
+    | none => exact Or.inr rfl
+    | some n => simp only; split; exact Or.inl rfl; exact Or.inr rfl
+  rcases hplan with hp | hp
+  · rw [hp] at hm
+    obtain ⟨rfl, _⟩ := matchLog_nil_plan Mut.sig hm
+    exact hc
+  rw [hp, rrdpPlanFrom_eq] at hm
+  simp only at hm
+  -- names
+  generalize hDW : dataWrites r fs.notification = DW at hm
+  generalize hnew : newNotification r fs.notification = new at hm
+  have hsubDW : ∀ e ∈ DW, e ∈ safeSetOf r := by rw [← hDW]; exact dataWrites_sub r _
+  -- states after the data writes, the new notification, the rename
+  obtain ⟨hc1, hnn1, hnp1, hkeep1, _⟩ := after_data_writes hpre hc DW hsubDW
+  obtain ⟨hsnap1, hdel1⟩ := new_refs_present hpre hc
+  rw [hDW] at hsnap1 hdel1
+  rw [hnew] at hdel1
+  generalize hfs1 : fs.applyAll (DW.map (fun e => Mut.create e.1 (.data e.2))) = fs1
+    at hc1 hnn1 hnp1 hkeep1 hsnap1 hdel1
+  have hnotdata : ∀ x, fs1.get? notifPath ≠ some (.data x) := by
+    intro x hx
+    rw [hnp1] at hx
+    rw [consistent_iff] at hc
+    rcases hc with hc | ⟨n, hn, _⟩
+    · rw [hc] at hx; cases hx
+    · rw [hn] at hx; cases hx
+  have hstep2 : fs1.apply (.create newNotifPath (.notif new)) = fs1.set newNotifPath (.notif new) := by
+    simp only [RrdpFs.apply, hnn1, writeOver]
+  have hget2 : ∀ p, p ≠ newNotifPath →
+      (fs1.set newNotifPath (.notif new)).get? p = fs1.get? p := by
+    intro p hp; rw [RrdpFs.get?_set]; simp [hp]
+  have hc2 : (fs1.set newNotifPath (.notif new)).consistent = true := by
+    rw [consistent_iff] at hc1 ⊢
+    have hne : notifPath ≠ newNotifPath := by decide
+    rcases hc1 with h | ⟨n, hn, hs, hd⟩
+    · exact Or.inl (by rw [hget2 _ hne]; exact h)
+    · refine Or.inr ⟨n, by rw [hget2 _ hne]; exact hn, ?_, ?_⟩
+      · rw [refOk_iff] at hs ⊢
+        rw [hget2]; exact hs
+        intro he; rw [he, hnn1] at hs; cases hs
+      · intro d hdm
+        have := hd d hdm
+        rw [refOk_iff] at this ⊢
+        rw [hget2]; exact this
+        intro he; rw [he, hnn1] at this; cases this
+  have hstep3 : (fs1.set newNotifPath (.notif new)).apply (.rename newNotifPath notifPath) =
+      ((fs1.set newNotifPath (.notif new)).remove newNotifPath).set notifPath (.notif new) := by
+    have : (fs1.set newNotifPath (.notif new)).get? newNotifPath = some (.notif new) := by
+      rw [RrdpFs.get?_set]; simp
+    simp only [RrdpFs.apply, this]
+  generalize hfs3 : ((fs1.set newNotifPath (.notif new)).remove newNotifPath).set notifPath (.notif new)
+    = fs3 at hstep3
+  have hget3 : ∀ p, p ≠ newNotifPath → p ≠ notifPath → fs3.get? p = fs1.get? p := by
+    intro p h1 h2
+    rw [← hfs3, RrdpFs.get?_set, RrdpFs.get?_remove, RrdpFs.get?_set]; simp [h1, h2]
+  have hnotif3 : fs3.get? notifPath = some (.notif new) := by
+    rw [← hfs3, RrdpFs.get?_set]; simp
+  have hdata3 : ∀ p x, fs1.get? p = some (.data x) → fs3.get? p = some (.data x) := by
+    intro p x hpx
+    rw [hget3 p]; exact hpx
+    · intro he; rw [he, hnn1] at hpx; cases hpx
+    · intro he; rw [he] at hpx; exact hnotdata x hpx
+  have hsnapref : new.snap = ⟨snapshotPath r, snapshotFile r⟩ := by rw [← hnew]; rfl
+  have hrefs3 : ∀ (fs' : RrdpFs), fs'.get? notifPath = some (.notif new) →
+      fs'.get? (snapshotPath r) = some (.data (snapshotFile r)) →
+      (∀ x ∈ new.deltas, fs'.get? x.2.path = some (.data x.2.data)) → fs'.consistent = true := by
+    intro fs' h1 h2 h3
+    rw [consistent_iff]
+    refine Or.inr ⟨new, h1, ?_, ?_⟩
+    · rw [refOk_iff, hsnapref]; exact h2
+    · intro d hd; rw [refOk_iff]; exact h3 d hd
+  have hc3 : fs3.consistent = true :=
+    hrefs3 fs3 hnotif3 (hdata3 _ _ hsnap1) (fun x hx => hdata3 _ _ (hdel1 x hx))
+  -- the writes as one list
+  have hwrites : ∀ (l : List Mut),
+      fs.applyAll (DW.map (fun e => Mut.create e.1 (.data e.2)) ++ l) = fs1.applyAll l := by
+    intro l; rw [applyAll_append_rrdp, hfs1]
+  have hall : fs.applyAll (DW.map (fun e => Mut.create e.1 (.data e.2)) ++
+      [.create newNotifPath (.notif new), .rename newNotifPath notifPath]) = fs3 := by
+    rw [hwrites]
+    simp only [RrdpFs.applyAll, List.foldl_cons, List.foldl_nil, hstep2, hstep3]
+  rcases matchLog_ordered Mut.sig _ _ _ _ _ hm with ⟨n, _, rfl, _⟩ | ⟨cs, log', rfl, hcs⟩
+  · -- interrupted during the writes
+    rcases take_append_two (DW.map (fun e => Mut.create e.1 (.data e.2)))
+        (.create newNotifPath (.notif new)) (.rename newNotifPath notifPath) n with
+      ⟨k, hk⟩ | hk | hk
+    · rw [hk, ← List.map_take]
+      exact (after_data_writes hpre hc (DW.take k)
+        (fun e he => hsubDW e (List.mem_of_mem_take he))).1
+    · rw [hk, hwrites]
+      simp only [RrdpFs.applyAll, List.foldl_cons, List.foldl_nil, hstep2]
+      exact hc2
+    · rw [hk, hall]; exact hc3
+  · -- all writes done, some of the clean-up
+    rw [applyAll_append_rrdp, hall]
+    rw [hall] at hcs
+    have hmem := matchLog_mem Mut.sig hcs
+    -- protected paths keep their content
+    have hprot : ∀ p, (p = notifPath ∨ p = snapshotPath r ∨ ∃ x ∈ new.deltas, p = x.2.path) →
+        (fs3.applyAll cs).get? p = fs3.get? p := by
+      intro p hp
+      apply get?_applyAll_removals
+      intro c hcmem
+      obtain ⟨ph, hph, hcph⟩ := hmem c hcmem
+      simp only [List.mem_cons, List.mem_nil_iff, or_false] at hph
+      -- shape of a protected path
+      have hshape : p = notifPath ∨
+          (∃ k rnd nm, p = [.sess r.session, .num k, .rnd rnd, .name nm] ∧
+            ((k = r.serial ∧ nm = "snapshot.xml") ∨
+             (nm = "delta.xml" ∧ (r.deltas.getLast?.map (·.serial)).getD 0 ≤ k ∧
+               k ≤ (r.deltas.head?.map (·.serial)).getD 0))) := by
+        rcases hp with rfl | rfl | ⟨x, hx, rfl⟩
+        · exact Or.inl rfl
+        · exact Or.inr ⟨r.serial, r.snapRnd, "snapshot.xml", rfl, Or.inl ⟨rfl, rfl⟩⟩
+        · rw [← hnew] at hx
+          obtain ⟨⟨rnd, hpath⟩, hlo, hhi⟩ := newNotification_delta_shape hpre hx
+          exact Or.inr ⟨x.1, rnd, "delta.xml", hpath, Or.inr ⟨rfl, hlo, hhi⟩⟩
+      rcases hph with rfl | rfl
+      · -- other sessions
+        obtain ⟨s, rfl, hs, e, he, x, rest', hep⟩ := mem_cleanupSessions hcph
+        refine ⟨rfl, ?_⟩
+        rcases hshape with rfl | ⟨k, rnd, nm, rfl, _⟩
+        · simp only [Mut.removes, notifPath, List.isPrefixOf, Bool.and_true, beq_eq_false_iff_ne, ne_eq]
+          intro hsn
+          subst hsn
+          -- a path below notification.xml: impossible
+          have he0 : e ∈ fs.applyAll (DW.map (fun e => Mut.create e.1 (.data e.2)) ++
+              [.create newNotifPath (.notif new), .rename newNotifPath notifPath]) := by
+            rw [hall]; exact he
+          rcases mem_applyAll_path _ he0 with ⟨e', he', hp'⟩ | ⟨m, hmm, ht⟩
+          · have := hpre.flat e' he' (by rw [hp', hep]; rfl)
+            rw [hp', hep] at this
+            simp [notifPath] at this
+          · rw [hep] at ht
+            simp only [List.mem_append, List.mem_map, List.mem_cons, List.mem_nil_iff, or_false] at hmm
+            rcases hmm with ⟨e0, he0, rfl⟩ | rfl | rfl
+            · simp only [Mut.target, Option.some.injEq] at ht
+              have := safeSet_path_len (hsubDW e0 he0)
+              obtain ⟨hd0, _⟩ : e0.1.head? = some (.name "notification.xml") ∧ True := by
+                rw [ht]; exact ⟨rfl, trivial⟩
+              have hmemS := hsubDW e0 he0
+              unfold safeSetOf at hmemS
+              rcases List.mem_cons.mp hmemS with rfl | hmemS
+              · simp [snapshotPath] at hd0
+              · obtain ⟨d, _, rfl⟩ := List.mem_map.mp hmemS
+                simp [deltaPath] at hd0
+            · simp [Mut.target, newNotifPath] at ht
+            · simp [Mut.target, notifPath] at ht
+        · simp only [Mut.removes, List.isPrefixOf, Bool.and_true, beq_eq_false_iff_ne, ne_eq]
+          exact hs
+      · -- entries of the session directory
+        rcases mem_cleanupSerials hcph with ⟨n, hn, hrange, hc'⟩ | ⟨n, x, hn, rfl⟩ | ⟨s, hs, rfl⟩
+        · rcases hshape with rfl | ⟨k, rnd, nm, rfl, hk⟩
+          · rcases hc' with rfl | rfl <;> exact ⟨rfl, by simp [Mut.removes, notifPath, List.isPrefixOf]⟩
+          · have hnk : n ≠ k := by
+              rcases hk with ⟨rfl, _⟩ | ⟨_, hlo, hhi⟩
+              · exact hn
+              · omega
+            rcases hc' with rfl | rfl
+            · exact ⟨rfl, by simp [Mut.removes, List.isPrefixOf, hnk]⟩
+            · exact ⟨rfl, by simp [Mut.removes]⟩
+        · rcases hshape with rfl | ⟨k, rnd, nm, rfl, hk⟩
+          · exact ⟨rfl, by simp [Mut.removes, notifPath]⟩
+          · refine ⟨rfl, ?_⟩
+            simp only [Mut.removes, beq_eq_false_iff_ne, ne_eq, List.cons.injEq, Seg.num.injEq,
+              Seg.name.injEq, and_true, true_and, not_and]
+            intro hkn _
+            rcases hk with ⟨rfl, _⟩ | ⟨rfl, _⟩
+            · exact absurd hkn.symm hn
+            · decide
+        · rcases hshape with rfl | ⟨k, rnd, nm, rfl, _⟩
+          · exact ⟨rfl, by simp [Mut.removes, notifPath, List.isPrefixOf]⟩
+          · refine ⟨rfl, ?_⟩
+            have := hs k
+            simp only [Mut.removes, List.isPrefixOf, beq_self_eq_true, Bool.true_and, Bool.and_true,
+              beq_eq_false_iff_ne, ne_eq]
+            exact this
+    apply hrefs3
+    · rw [hprot _ (Or.inl rfl)]; exact hnotif3
+    · rw [hprot _ (Or.inr (Or.inl rfl))]; exact hdata3 _ _ hsnap1
+    · intro x hx
+      rw [hprot _ (Or.inr (Or.inr ⟨x, hx, rfl⟩))]
+      exact hdata3 _ _ (hdel1 x hx)
+
 end KM.Pubd
